@@ -125,7 +125,7 @@ def _cex(w, m, cls, k, shape):
     msg, own = w["msg"], w["own"]
     side = msg[0:1].model_bytes(m)[0]
     mode = "peer"
-    if len(msg) == len(own) and z3.is_true(m.eval(msg[1:].eq_term(own[1:]), model_completion=True)):
+    if m is not None and len(msg) == len(own) and z3.is_true(m.eval(msg[1:].eq_term(own[1:]), model_completion=True)):
         mode = "own"
     return dict(cls=cls, k=k, shape=shape, side=side, mode=mode, pw=w["pw"].model_bytes(m), idA=w["idA"].model_bytes(m),
                 idB=w["idB"].model_bytes(m), x=model_int(m, w["a"].xy_scalar))
